@@ -209,6 +209,32 @@ def special_layouts(rep, impl):
             shutil.rmtree(d, ignore_errors=True)
 
 
+    # (3) configured files that were edited by hand (still valid): indented keys with an entry for the file itself; a section header followed by
+    # blanks or a tab.  `show` reads them, `init` refuses and changes nothing
+    hand = [("pyproject.toml", '[tool.bumpver]\n    current_version = "1.2.3"\n    version_pattern = "MAJOR.MINOR.PATCH"\n\n[tool.bumpver.file_patterns]\n    "pyproject.toml" = [\'current_version = "{version}"\']\n', []),
+            ("bumpver.toml", '[bumpver] \ncurrent_version = "1.2.3"\nversion_pattern = "MAJOR.MINOR.PATCH"\n\n[bumpver.file_patterns]\n"README.md" = ["{version}"]\n', ["pyproject.toml"]),
+            ("setup.cfg", '[bumpver]\t\ncurrent_version = 1.2.3\nversion_pattern = MAJOR.MINOR.PATCH\n\n[bumpver:file_patterns]\nREADME.md =\n    {version}\n', []),
+            ("setup.cfg", '[metadata]\nname = demo\n\n[bumpver]  \ncurrent_version = "1.2.3"\nversion_pattern = "MAJOR.MINOR.PATCH"\n\n[bumpver:file_patterns]\nREADME.md =\n    {version}\n', ["pyproject.toml"])]
+    for fname, text, empties in hand:
+        d = tempfile.mkdtemp(prefix="bvinit_", dir=project.SCRATCH)
+        try:
+            open(os.path.join(d, fname), "w").write(text)
+            open(os.path.join(d, "README.md"), "w").write("demo 1.2.3\n")
+            for e in empties:
+                open(os.path.join(d, e), "w").write("")
+            c2, o2, e2 = impl.run_cli(["show", "--no-fetch"], cwd=d)
+            before = snapshot(d)
+            c3, o3, e3 = impl.run_cli(["init"], cwd=d)
+            rep.case(("hand-edited", fname, text[:24]), nontrivial=True)
+            inp = dict(layout="%s edited by hand: %r%s" % (fname, text[:60], (" next to empty %s" % empties) if empties else ""), show_exit=c2, show=o2[-200:], init_exit=c3)
+            if c2 != 0 or "Current Version: 1.2.3" not in o2:
+                rep.violation("show does not read a hand-edited (valid) configuration", input=inp, **{"class": "show-after-init"})
+            elif c3 == 0 or snapshot(d) != before:
+                rep.violation("init did not refuse an already configured project / changed files", input=inp, **{"class": "second-init"})
+        finally:
+            shutil.rmtree(d, ignore_errors=True)
+
+
 def search(rep, tier, seed, effort=2):
     run(rep, tier, seed, model_ok=False, effort=effort)
 
